@@ -230,3 +230,78 @@ def make_fluid(is_gas, name="fluid", comp_2d=False):
                    "all_properties": props}, cls=cref)
     o.ufs = ufs
     return o
+
+
+class Series(Arr):
+    """a pandas Series / column: an array whose `.values` is itself"""
+    is_series = True
+
+
+class IndexObj:
+    def __init__(self, arr):
+        self.arr = arr
+
+    def getattr_(self, ev, attr, lineno):
+        if attr == "values":
+            return self.arr
+        raise Unsupported("index attribute %s" % attr)
+
+    def getitem(self, ev, idx, lineno):
+        return ev.arr_get(self.arr, idx, lineno, None)
+
+    def length(self):
+        return self.arr.n
+
+
+class TableObj:
+    """an element table of the net (pandas DataFrame): named columns of equal length plus the index.
+    Column reads return the column buffer itself (`.values` is a view: stores through it would
+    modify the user's table -- recorded in `writes`)."""
+
+    def __init__(self, name, n, columns, index=None):
+        self.name = name
+        self.n = n
+        self.columns = columns          # col -> Series
+        self.index = index if index is not None else Series(n, sym_arr(name + "_index", n, "i").f, "i")
+        self.writes = []
+
+    def length(self):
+        return self.n
+
+    def _col(self, c):
+        from .ev import _Raise, ExcVal
+        if c not in self.columns:
+            raise _Raise(ExcVal("KeyError", (c,)))
+        return self.columns[c]
+
+    def getattr_(self, ev, attr, lineno):
+        if attr == "index":
+            return IndexObj(self.index)
+        if attr in self.columns:
+            return self.columns[attr]
+        if attr == "columns":
+            return list(self.columns.keys())
+        from .ev import _Raise, ExcVal
+        raise _Raise(ExcVal("AttributeError", (attr,)))
+
+    def getitem(self, ev, key, lineno):
+        if isinstance(key, str):
+            return self._col(key)
+        raise Unsupported("table subscript %r" % (key,))
+
+    def setitem(self, ev, key, v, lineno):
+        self.writes.append(key)
+        if is_array(v):
+            self.columns[key] = Series(v.n, v.f, v.kind)
+        else:
+            self.columns[key] = Series(self.n, lambda j, _v=v: _v, "f")
+
+
+def sym_table(name, n, cols):
+    """cols: {column: kind | (kind, nan)}"""
+    out = {}
+    for c, k in cols.items():
+        kind, nan = (k, False) if isinstance(k, str) else k
+        a = sym_arr("%s_%s" % (name, c), n, kind, nan)
+        out[c] = Series(n, a.f, kind, "%s.%s" % (name, c))
+    return TableObj(name, n, out)
